@@ -725,7 +725,15 @@ func addTimeSubs(cfg *ResponseConfig, a *asset, period *m.Period, languages []st
 			st.SegmentTimeline = changeTimelineTimescale(vST.SegmentTimeline, int(*vST.Timescale), SUBS_TIME_TIMESCALE)
 		}
 		as := m.NewAdaptationSet()
-		as.Id = Ptr(uint32(100 + i))
+		asID := uint32(100 + i)
+		for idx := 0; idx < len(period.AdaptationSets); idx++ {
+			// stpp and wvtt subtitles may be generated together: take the next id that is free
+			if o := period.AdaptationSets[idx]; o.Id != nil && *o.Id == asID {
+				asID++
+				idx = -1
+			}
+		}
+		as.Id = Ptr(asID)
 		as.Lang = lang
 		as.ContentType = "text"
 		as.MimeType = "application/mp4"
